@@ -231,4 +231,131 @@ pub fn run(ctx: &mut Ctx) {
         }
         ctx.end(i);
     }
+    coincidence_phase(ctx, n);
+}
+
+/// Start positions that coincide with the archive's own geometry: the archive is first written at position 0, then again at
+/// P = X + d for every section offset / length / end X of its header and d in {-127, -1, 0, 1, 127} (the header is 127 bytes:
+/// P + 127 = X is where a comparison of an output-stream position with an archive-relative or buffer-relative quantity would
+/// coincide). Leaf-spilling archives in all four codecs; the oracle is the one of the main loop (independent reader on
+/// stream[P..final position], final position, prefix, nothing behind the end).
+fn coincidence_phase(ctx: &mut Ctx, first_idx: u64) {
+    let archives = ctx.n(8, 64);
+    let deltas: [i64; 5] = [-127, -1, 0, 1, 127];
+    for a in 0..archives {
+        let idx = first_idx + a;
+        if !ctx.mine(idx) {
+            continue;
+        }
+        ctx.begin(idx);
+        let mut rng = ctx.rng("c18.coincide", idx);
+        let codec = R::CODECS[(a % 4) as usize];
+        let class = if a % 4 == 3 && a % 8 != 3 { SizeClass::Medium } else { SizeClass::Spill };
+        let l = gen::gen_logical(&mut rng, class, codec);
+        let mut z = Inst::new(Vec::new());
+        let base_ok = matches!(guard(|| l.build().to_writer(&mut z)), Ok(Ok(())));
+        let h = match (base_ok, R::header_unpack(&z.c.data)) {
+            (true, Ok(h)) => h,
+            _ => {
+                // the main loop reports failures at P = 0; nothing to derive positions from here
+                ctx.count("coincidence_archives_without_baseline");
+                ctx.end(idx);
+                continue;
+            }
+        };
+        let mut xs = vec![
+            h.root_offset + h.root_length,
+            h.meta_length,
+            h.meta_offset + h.meta_length,
+            h.leaf_offset,
+            h.leaf_length,
+            h.leaf_offset + h.leaf_length,
+            h.data_length,
+            h.data_offset + h.data_length,
+            h.root_length,
+        ];
+        xs.sort_unstable();
+        xs.dedup();
+        let probes = lookup_probes(&l, &mut rng, 10);
+        let mut k = 0u64;
+        for x in xs {
+            for d in deltas {
+                let p = x as i64 + d;
+                if p <= 0 || p > (1 << 26) {
+                    continue;
+                }
+                let p = p as u64;
+                k += 1;
+                let asyncm = k % 2 == 0;
+                let api = if asyncm { "PMTiles::to_async_writer" } else { "PMTiles::to_writer" };
+                let mat = json!({"archive": l.describe(), "start_position": p, "prefill_len": 0, "api": api, "coincides_with": format!("{x}{d:+}")});
+                let (res, data, pos) = if asyncm {
+                    let mut s = AInst::new(Vec::new());
+                    s.c.pos = p;
+                    let pm = l.build_async();
+                    let r = guard(|| block_on(pm.to_async_writer(&mut s)));
+                    (r, s.c.data, s.c.pos)
+                } else {
+                    let mut s = Inst::new(Vec::new());
+                    s.c.pos = p;
+                    let pm = l.build();
+                    let r = guard(|| pm.to_writer(&mut s));
+                    (r, s.c.data, s.c.pos)
+                };
+                ctx.case(hash_u64s(&[l.fingerprint(), p, 0, u64::from(asyncm)]), true);
+                ctx.count("start_positions_coinciding_with_section_geometry");
+                match res {
+                    Err(pn) => {
+                        ctx.panic(api, &pn, mat);
+                        continue;
+                    }
+                    Ok(Err(e)) => {
+                        ctx.violation(api, "error", "writing at a start position failed", &format!("write at position {p} failed: {e}"), mat);
+                        continue;
+                    }
+                    Ok(Ok(())) => {}
+                }
+                if (data.len() as u64) < p {
+                    ctx.violation(api, "nothing-at-p", "no archive at the start position", &format!("stream has only {} bytes, start position {p}", data.len()), mat);
+                    continue;
+                }
+                if let Some(at) = data[..p as usize].iter().position(|b| *b != 0) {
+                    ctx.violation(api, "prefix-modified", "bytes before the start position were modified", &format!("writing at position {p} changed byte {at} of the stream (before the start position)"), mat.clone());
+                }
+                let tail = &data[p as usize..];
+                let end = pos.saturating_sub(p).min(tail.len() as u64) as usize;
+                match verify_archive_bytes(&tail[..end], &l, &probes) {
+                    Ok(v) => {
+                        let h = v.header;
+                        let arch_end = [127, h.root_offset + h.root_length, h.meta_offset + h.meta_length, h.leaf_offset + h.leaf_length, h.data_offset + h.data_length]
+                            .into_iter()
+                            .max()
+                            .unwrap_or(127);
+                        if pos != p + arch_end {
+                            ctx.violation(api, "final-position", "stream is not left positioned at the archive's end", &format!("start {p}, archive is {arch_end} bytes long, final position {pos}"), mat.clone());
+                        } else if data.len() as u64 != pos {
+                            ctx.violation(api, "beyond-end", "bytes were written behind the archive's end", &format!("start {p}, archive ends at {pos}, stream has {} bytes", data.len()), mat.clone());
+                        }
+                        if h.leaf_length > 0 {
+                            ctx.count("coinciding_with_leaf_spill");
+                        }
+                    }
+                    Err(e) => {
+                        let whole = verify_archive_bytes(tail, &l, &[]).err();
+                        ctx.violation(
+                            api,
+                            "not-an-archive-at-p",
+                            "bytes from the start position on are not the archive that was written",
+                            &format!(
+                                "start position {p} (= {x}{d:+} of the archive's own geometry), final position {pos}: independent reader on stream[{p}..{pos}]: {e}{}",
+                                whole.map_or(String::new(), |w| format!("; on stream[{p}..]: {w}"))
+                            ),
+                            mat.clone(),
+                        );
+                    }
+                }
+            }
+        }
+        ctx.end(idx);
+    }
 }
